@@ -10,7 +10,7 @@
 #include <memory>
 
 namespace {
-struct Local { uint64_t states = 0, transitions = 0, replays = 0, max_depth = 0, noop = 0; std::map<Str, uint64_t> by_op; };
+struct Local { uint64_t states = 0, transitions = 0, replays = 0, max_depth = 0, noop = 0, twins = 0; std::map<Str, uint64_t> by_op; };
 static const char *BASES[] = { "s://h/a/b?q", "s:/a/b", "s:a/b", "s:", "s://h", "t://g/x//y", "s://u@h:1/", "s:/" };
 enum { NB = 8 };
 
@@ -90,10 +90,19 @@ template <class C> struct Explorer {
         World<C> w; Uri *cur = w.parse(init); if (!cur) { ctx->harness_error("initial text does not parse: " + init); return ""; }
         lc->replays++; *progressed = true;
         for (size_t i = 0; i < hist.size(); i++) {
-            int rc; bool na; Str before = i + 1 == hist.size() ? observe<C>(*cur).key() : Str();
+            int rc; bool na; bool last = i + 1 == hist.size(); Str before = last ? observe<C>(*cur).key() : Str();
+            // differential twin: the same operation applied to the object re-read from its own text must give the same text
+            // (a library-made object and its written-and-read-back copy mean the same, so every later call must treat them alike)
+            int trc0 = 0; Str twin_text = last && hist[i][0] != 'P' ? to_text<C>(*cur, &trc0) : Str();
             Uri *n = w.apply(hist[i], cur, &rc, &na);
             if (na) return "";
-            if (rc != URI_SUCCESS) { if (i + 1 == hist.size()) *viol = fmt("operation %s returned %d", hist[i].c_str(), rc); return ""; }
+            if (rc != URI_SUCCESS) { if (last) *viol = fmt("operation %s returned %d", hist[i].c_str(), rc); return ""; }
+            if (last && hist[i][0] != 'P' && trc0 == URI_SUCCESS) {
+                Uri *tw = w.parse(twin_text);
+                if (tw) { int rc2; bool na2; Uri *n2 = w.apply(hist[i], tw, &rc2, &na2); lc->twins++;
+                    if (!na2) { int t1 = 0, t2 = 0; Str r1 = to_text<C>(*n, &t1), r2 = rc2 == URI_SUCCESS ? to_text<C>(*n2, &t2) : Str();
+                        if (rc2 != URI_SUCCESS || t1 != t2 || r1 != r2) { *viol = fmt("operation %s gives '%s' on the library-made object but '%s' (rc %d) on the object re-read from its text '%s'", hist[i].c_str(), r1.c_str(), r2.c_str(), rc2, twin_text.c_str()); } } }
+            }
             if (i + 1 == hist.size() && n == cur && observe<C>(*cur).key() == before) *progressed = false;
             cur = n;
         }
@@ -156,7 +165,7 @@ void run(Ctx &ctx) {
     for (size_t i = 0; i < all.size(); i++) if (ctx.mine(i)) mine.push_back(all[i]);
     { Explorer<char> ex(&ctx, &lc); ex.explore(mine, ctx.secondary ? depth : ctx.quick() ? depth + 1 : depth + 3); }
     { Explorer<wchar_t> ex(&ctx, &lc); ex.explore(mine, depth); }
-    ctx.st.count("states", lc.states); ctx.st.count("transitions", lc.transitions); ctx.st.count("evaluations", lc.replays); ctx.st.count("self_loops", lc.noop);
+    ctx.st.count("states", lc.states); ctx.st.count("transitions", lc.transitions); ctx.st.count("evaluations", lc.replays); ctx.st.count("self_loops", lc.noop); ctx.st.count("twin_comparisons", lc.twins);
     for (auto &kv : lc.by_op) ctx.st.count("op_" + kv.first, kv.second);
     ctx.st.distinct("max_depth", fmt("%llu", (unsigned long long)lc.max_depth));
     if (ctx.worker == 0) { ctx.st.count("initial_states", all.size()); ctx.st.sample("a/../c:d ; N8 ; R1.0 ; P"); ctx.st.sample("s:/.//c:d ; N63"); ctx.st.sample("//h/../a ; S0.1 ; O ; N8"); }
@@ -171,7 +180,7 @@ void replay(Ctx &ctx, const Str &enc) {
 Str coverage(const Ctx &, const Stats &st) {
     uint64_t md = 0; auto it = st.sets.find("max_depth"); if (it != st.sets.end()) for (auto &s : it->second) md = std::max<uint64_t>(md, strtoull(s.c_str(), 0, 10));
     return jkv("states", st.get("states")) + ", " + jkv("transitions", st.get("transitions")) + ", " + jkv("traces_validated_against_impl", st.get("evaluations")) + ", " +
-           jkv("evaluations", st.get("evaluations")) + ", " + jkv("distinct_nontrivial", st.get("states")) + ", " + jkv("max_depth", md) + ", " + jkv("initial_states", st.get("initial_states")) + ", " + jkv("self_loops", st.get("self_loops")) + ", " +
+           jkv("evaluations", st.get("evaluations")) + ", " + jkv("distinct_nontrivial", st.get("states")) + ", " + jkv("max_depth", md) + ", " + jkv("initial_states", st.get("initial_states")) + ", " + jkv("self_loops", st.get("self_loops")) + ", " + jkv("differential_twin_comparisons", st.get("twin_comparisons")) + ", " +
            jkv("transitions_normalize", st.get("op_N")) + ", " + jkv("transitions_make_owner", st.get("op_O")) + ", " + jkv("transitions_reparse", st.get("op_P")) + ", " + jkv("transitions_resolve_as_reference", st.get("op_R")) + ", " +
            jkv("transitions_resolve_as_base", st.get("op_B")) + ", " + jkv("transitions_shorten_as_source", st.get("op_S")) + ", " + jkv("transitions_shorten_as_base", st.get("op_T")) + ", " +
            jkvs("rule", "explicit-state breadth-first search run directly on the implementation: a state is a URI object identified by a canonical key (recomposable content, NULL/empty/non-empty per component, host kind and bytes, segment list, absolutePath, owner, ipFuture aliasing, tail validity - no addresses); a transition is one real call (normalize with 9 masks, makeOwner, resolve as reference against 8 bases x 2 options, resolve as base, shorten as source / as base x 2 modes, write-and-reparse); objects are rebuilt by replaying their history on fresh objects; the invariant (recomposes, text is in the language, re-parse preserves scheme/authority parts/path text/query/fragment, structure well formed) is evaluated in every state. states are deduplicated per worker (each worker owns a share of the initial states), so `states` may count a state reached from two workers twice; distinct_nontrivial = states.") + ", " + jsamples(st);
